@@ -259,6 +259,30 @@ def ban_literals(ctx) -> Tuple[List[str], Func, ast.AST]:
                         rest = [v for v in vals if v.kind != "list" and not (v.kind == "sym" and v.default is None) and not (v.kind == "const" and v.value is None)]
                         if len(lists) == 1 and not rest:
                             return [x.value for x in lists[0].value], rb, c
+                        # `self.<x>` computed in the constructor from its parameters: fold it under the default arguments
+                        if isinstance(k.value, ast.Attribute) and isinstance(k.value.value, ast.Name) and k.value.value.id == rb.params[0] and rb.cls is not None:
+                            from ..constfold import Folder
+
+                            init = ctx.prog.lookup_method(rb.cls, "__init__")
+                            if init is not None:
+                                env_ = {}
+                                for pn, dv in init.param_defaults().items():
+                                    try:
+                                        fo0 = Folder(init.module, None)
+                                        fo0.prog = ctx.prog
+                                        env_[pn] = fo0.fold(dv)
+                                    except Unfoldable:
+                                        pass
+                                for n_ in own_nodes(init.node):
+                                    if isinstance(n_, ast.Assign) and any(isinstance(t, ast.Attribute) and t.attr == k.value.attr for t in n_.targets):
+                                        try:
+                                            fo1 = Folder(init.module, None)
+                                            fo1.prog = ctx.prog
+                                            val = fo1.fold(n_.value, env_)
+                                            if isinstance(val, (list, tuple)) and all(isinstance(x, str) for x in val):
+                                                return list(val), rb, c
+                                        except Unfoldable:
+                                            pass
                         raise AnalysisError("the ban_atoms argument of RuleConstraint in RuleBasedMethod.run does not fold to a list of literals: %s" % ex)
                     if isinstance(val, (list, tuple)) and all(isinstance(x, str) for x in val):
                         return list(val), rb, c
@@ -430,7 +454,54 @@ def rule_d7(ctx) -> None:
             ctx.finding("C08-D7", "BothSideReact.reverse_values_if_negative_except_Q:partial-negation", f.loc(r), "the relabelled imbalance %s is neither the given vector nor its complete negation: an entry (the charge) keeps its sign when the side is swapped, so the solver fills a vector that is not the imbalance of the reaction" % unparse(v)[:70])
 
 
+def rule_d8(ctx) -> None:
+    """D2-D5 decide that the completions of SyntheticRuleMatcher.match add up exactly to the imbalance it was built
+    with.  That carries over to the stage only if the matcher is the *only* source of completions: the variable that
+    single_impute reads the completion from is bound by `matcher.match()` and by nothing else that computes."""
+    ctx.rule("C08-D8", "the completion used by single_impute comes from SyntheticRuleMatcher.match() only", 1)
+    f = ctx.prog.func("synrbl.SynRuleImputer.synthetic_rule_imputer.SyntheticRuleImputer.single_impute")
+    sols = set()
+    for n in own_nodes(f.node):
+        if isinstance(n, ast.Assign) and len(n.targets) == 1 and isinstance(n.targets[0], ast.Name) and isinstance(n.value, ast.Call) and isinstance(n.value.func, ast.Attribute) and n.value.func.attr == "match":
+            sols.add(n.targets[0].id)
+    ctx.require(sols, "single_impute no longer binds the result of matcher.match() to a local")
+    for nm in sorted(sols):
+        for st_, v, i in assignments_to(f, nm):
+            is_match = isinstance(v, ast.Call) and isinstance(v.func, ast.Attribute) and v.func.attr == "match"
+            is_empty = (isinstance(v, (ast.List, ast.Tuple)) and not v.elts) or (isinstance(v, ast.Constant) and v.value is None)
+            ok = i is None and (is_match or is_empty)
+            ctx.instance("C08-D8", "single_impute: %s = %s" % (nm, unparse(v)[:60]), f.loc(st_), ok=ok)
+            if not ok:
+                ctx.finding("C08-D8", "SyntheticRuleImputer.single_impute:second-solver", f.loc(st_), "the completion %s is also computed by %s, not by SyntheticRuleMatcher.match(): the exactness argument (D2-D5, charge included) covers the matcher only" % (nm, unparse(v)[:60]))
+
+
+def rule_d9(ctx) -> None:
+    """The ban is a text match between the *canonical* SMILES of the banned molecules and the canonical database
+    entries (D3).  The canonicalisation in RuleConstraint.__init__ has to happen for every entry or fail loudly: inside a
+    handler that carries on, one unparsable entry leaves the whole list as written (`Cl-Cl` never matches `ClCl`)."""
+    ctx.rule("C08-D9", "the ban list is canonicalised outside any handler that swallows the failure", 1)
+    cls = next((c for q, c in ctx.prog.classes.items() if q.endswith(".RuleConstraint")), None)
+    ctx.require(cls is not None, "RuleConstraint vanished")
+    init = ctx.prog.lookup_method(cls, "__init__")
+    sites = [c for c in own_nodes(init.node) if isinstance(c, ast.Call) and unparse(c.func).split(".")[-1] in ("CanonSmiles", "MolToSmiles")]
+    ctx.require(sites, "RuleConstraint.__init__ no longer canonicalises the ban list")
+    for c in sites:
+        swallowed = None
+        prev, cur = c, getattr(c, "_parent", None)
+        while cur is not None and cur is not init.node:
+            if isinstance(cur, ast.Try) and any(prev is b or any(prev is y for y in ast.walk(b)) for b in cur.body):
+                for h in cur.handlers:
+                    if not any(isinstance(x, ast.Raise) for x in ast.walk(h)):
+                        swallowed = h
+            prev, cur = cur, getattr(cur, "_parent", None)
+        ctx.instance("C08-D9", "RuleConstraint.__init__: %s (inside a swallowing handler: %s)" % (unparse(c)[:40], swallowed is not None), init.loc(c), ok=swallowed is None)
+        if swallowed is not None:
+            ctx.finding("C08-D9", "RuleConstraint.__init__:canonicalisation-swallowed", init.loc(c), "the canonicalisation of the ban list sits in a try whose handler carries on: one entry RDKit cannot parse leaves every entry as written, the text match with the canonical database SMILES fails, and banned molecules (ClCl, BrBr) are accepted as completions")
+
+
 def check(ctx) -> None:
+    rule_d9(ctx)
+    rule_d8(ctx)
     rule_d7(ctx)
     # D6: the completion computed for an imbalance is attached to the reaction the imbalance was computed for: the
     # lists joined by position in the rule-based stage derive from the same rows without a filter in between
